@@ -172,10 +172,10 @@ impl Interp {
             aliases: Rc::new(aliases),
             current: None,
         };
-        // A1: the whole program is one sequence; the spec does not say what flows into its first
-        // step, so that input is `Absent` and any use of it abstains
+        // A1: the whole program is one sequence starting from nil (the entry function's parameter
+        // in `quiv run` and the first REPL line)
         let seq = ast::Sequence { chains };
-        match self.sequence(&seq, V::Absent, &mut env) {
+        match self.sequence(&seq, nil(), &mut env) {
             Err(Stop::Return(_)) => abstain("tail call at top level"),
             r => r,
         }
